@@ -1,6 +1,7 @@
 (* C20 — checker over the implementation's observations: one request per operation, identity fields and stamp *)
 From Coq Require Import List String NArith Bool.
 From Verif Require Import Base.Util Writer.Model.
+From Verif Require C08.Check.
 Import ListNotations.
 Local Open Scope string_scope.
 Local Open Scope list_scope.
@@ -71,7 +72,9 @@ Fixpoint steps_ok (rid : string) (ops : list (wop * bool)) (obs : list step_obs)
   | _, _ => false
   end.
 
-Definition check_C20 (c : case) : bool := steps_ok (e_rid (c_env c)) (c_ops c) (c_obs c).
+(* identity of the requests, and (shared with C08) partitions recorded dropped are not named in load/release requests *)
+Definition check_C20 (c : case) : bool :=
+  steps_ok (e_rid (c_env c)) (c_ops c) (c_obs c) && C08.Check.check_C08 c.
 
 (* known finding class 1: the source schema uses a field attribute the SDK schema type cannot carry
    (nullable / default value / function output / functions); the harness marks those payload entries *)
